@@ -322,7 +322,7 @@ func genGL(t *rapid.T, hostile bool) glSpec {
 				}
 			}
 		}
-		g.Meta.Comments = rapid.SampledFrom([][]string{nil, {"c1"}, {"c1", "c2"}}).Draw(t, "comments")
+		g.Meta.Comments = rapid.SampledFrom([][]string{nil, {"c1"}, {"c1", "c2"}, {"line one\nline two", "c\r\nd\re"}}).Draw(t, "comments")
 	}
 	if rapid.Bool().Draw(t, "hasstl") {
 		st := genSTLGSI(t)
